@@ -176,7 +176,7 @@ def is_extbase(b):
 class Explorer:
     """explores one body; `purity` is a Purity oracle (see models.py) or None"""
 
-    def __init__(self, facts, body, purity=None, inline=True, opaque=(), expand=(), atomic=()):
+    def __init__(self, facts, body, purity=None, inline=True, opaque=(), expand=(), atomic=(), expand_loops=False):
         self.facts = facts
         self.body = body
         self.purity = purity
@@ -185,6 +185,8 @@ class Explorer:
         self.expand = set(expand)       # anchor functions a rule asks to see through (expanded path by path although they are named)
         self.atomic = set(atomic)       # field names whose loads through a pointer are atoms (stores on the path are not forwarded to them)
         self.seen_bodies = set()        # bodies whose code was evaluated as part of this one (inlined, expanded, applied)
+        self.expand_loops = expand_loops   # also expand local helpers that contain loops (their loops are handled like the anchor's own)
+        self._nested_loops = {}
         self.paths = []
         self.loops = body.loops()
         self.loop_havoc = {h: self._loop_writes(blocks) for h, blocks in self.loops.items()}
@@ -203,7 +205,8 @@ class Explorer:
                         out.add(p['l'])
         return out
 
-    def _loop_writes(self, blocks):
+    def _loop_writes(self, blocks, body=None):
+        body0 = body or self.body
         locs = set()        # locals assigned directly
         ptrs = set()        # locals written through (their pointee changes, the pointer does not)
         ext = False
@@ -252,7 +255,7 @@ class Explorer:
                     fields.add(fs[-1]['name'] if fs and fs[-1]['name'] is not None else None)
 
         for b in blocks:
-            bl = self.body.blocks[b]
+            bl = body0.blocks[b]
             for st in bl['stmts']:
                 if st['k'] in ('assign', 'setdiscr'):
                     p = st['place']
@@ -275,7 +278,7 @@ class Explorer:
                     ptrs.add(t['place']['l'])
                 else:
                     locs.add(t['place']['l'])
-        scan(self.body, blocks, 0)
+        scan(body0, blocks, 0)
         return (locs, ext, has_call, ptrs, fields, wipe_all[0])
 
     # --------------------------------------------------------------- locations
@@ -811,18 +814,30 @@ class Explorer:
         if len(self.paths) > MAX_PATHS:
             raise CannotAnalyse('more than %d paths in %s' % (MAX_PATHS, self.body.id))
 
-    def _havoc(self, st, h):
-        locs, ext, has_call, ptrs, fields, wipe_all = self.loop_havoc[h]
-        fid = self.top.id
+    def _frame_loops(self, fr):
+        """(loops, havoc summaries, mutably borrowed locals) of the body a frame runs"""
+        if fr is self.top:
+            return self.loops, self.loop_havoc, self.mut_borrowed
+        bid = fr.body.id
+        if bid not in self._nested_loops:
+            loops = fr.body.loops() if self.expand_loops else {}
+            self._nested_loops[bid] = (loops, {h: self._loop_writes(bl, fr.body) for h, bl in loops.items()}, self._mut_borrowed(fr.body))
+        return self._nested_loops[bid]
+
+    def _havoc(self, st, h, fr=None, summary=None, mutb=None):
+        fr = fr or self.top
+        locs, ext, has_call, ptrs, fields, wipe_all = summary if summary is not None else self.loop_havoc[h]
+        mutb = self.mut_borrowed if mutb is None else mutb
+        fid = fr.id
         # a pointer written through inside the loop may point to one of our own locals
         for l in ptrs:
-            v = strip_upd(self.load(st, self.top, (('loc', fid, l), ())))
+            v = strip_upd(self.load(st, fr, (('loc', fid, l), ())))
             if v[0] == 'ref' and v[1][0][0] == 'loc':
                 self.store(st, (v[1][0], ()), ('havoc', h, v[1][0][2]))
         for l in locs:
             self.store(st, (('loc', fid, l), ()), ('havoc', h, l))
         if has_call or ext:
-            for l in self.mut_borrowed:
+            for l in mutb:
                 if l not in locs:
                     self.store(st, (('loc', fid, l), ()), ('havoc', h, l))
         if wipe_all:
@@ -1212,7 +1227,8 @@ class Explorer:
             return None
         if (cb.j.get('impl') or {}).get('auto_derived') or cb.j.get('kind') == 'Closure':
             return None
-        if is_straight_line(cb) or cb.loops() or len(cb.blocks) > (250 if name in self.expand else 80) or t['target'] is None:
+        if is_straight_line(cb) or (cb.loops() and not (self.expand_loops and fr is self.top and len(cb.loops()) <= 2)) \
+                or len(cb.blocks) > (250 if name in self.expand else 80) or t['target'] is None:
             return None
         f = fr
         while f is not None:
@@ -1226,16 +1242,19 @@ class Explorer:
         body = fr.body
         top = fr is self.top
         while True:
-            if top and b in self.loops:
-                if b in st.headers:
-                    self._finish(st, 'backedge', b)
+            f_loops, f_havoc, f_mutb = self._frame_loops(fr)
+            if b in f_loops:
+                hk = b if top else (short(body.id), b)          # header id: block number in the anchor, (helper, block) in a helper
+                hid = b if top else (fr.id, b)
+                if hid in st.headers:
+                    self._finish(st, 'backedge', hk)
                     return
-                st.headers = st.headers | {b}
+                st.headers = st.headers | {hid}
                 pre = {}
-                for l in set(self.loop_havoc[b][0]) | set(self.mut_borrowed):
-                    pre[l] = self.load(st, self.top, (('loc', self.top.id, l), ()))
-                self._havoc(st, b)
-                st.path.events.append({'k': 'loophead', 'bb': b, 'depth': 0, 'pre': pre})
+                for l in set(f_havoc[b][0]) | set(f_mutb):
+                    pre[l] = self.load(st, fr, (('loc', fr.id, l), ()))
+                self._havoc(st, hk, fr, f_havoc[b], f_mutb)
+                st.path.events.append({'k': 'loophead', 'bb': hk, 'depth': fr.evdepth, 'pre': pre, 'in': body.id})
             if top:
                 st.path.blocks.append(b)
             bl = body.blocks[b]
